@@ -18,7 +18,7 @@ _pairs = {}
 
 def gen(rng, tier):
     cases = []
-    n = 330 if tier == "quick" else 12000
+    n = 330 if tier == "quick" else 3000
     for i in range(n):
         data, meta, info = streamgen.gen_file(rng, small=(i % 11 == 0))
         fam = filegen.fam_for(rng, meta["little"])
